@@ -41,6 +41,7 @@ package zapcore
 //@   ensures result != nil ==> forall i int :: 0 <= i && i < len(result.cores) ==> result.cores[i] != nil
 //@   ensures result != nil && arr(result.cores) == nil ==> len(result.cores) == 0
 //@   ensures elems_frame(type(zapcore.Core), ce == nil ? zero(type([]zapcore.Core)) : old(ce.cores))
+//@   ensures only_changed(zapcore.CheckedEntry.cores, ce)
 
 //@ iface zapcore.WriteSyncer.Write
 //@   modifies $user
@@ -416,6 +417,7 @@ package zapcore
 //@   loop 1 invariant ce != nil ==> (param(ce) != nil && arr(ce.cores) == old(arr(param(ce).cores))) || arr(ce.cores) == nil || fresh(ce.cores)
 //@   loop 1 invariant ce != nil ==> forall i int :: 0 <= i && i < len(ce.cores) ==> ce.cores[i] != nil
 //@   loop 1 invariant elems_frame(type(Core), param(ce) == nil ? zero(type([]Core)) : old(param(ce).cores))
+//@   loop 1 invariant only_changed(zapcore.CheckedEntry.cores, param(ce))
 
 //@ func (zapcore.multiCore).Enabled
 //@   props C05
